@@ -953,6 +953,54 @@ def copy_definitions_probe(backend, translator):
     return bad or None
 
 
+def node_reference_probe(backend, translator):
+    """A BDD entered by reference (`@ n`, the way str(u) prints a node of
+    either back end) inside a later formula must mean the BDD it refers to:
+    for nodes of several kinds (constants TRUE and FALSE, which are `@1` /
+    `@-1` under dd.autoref and pointers under dd.cudd; complemented and
+    regular edges), `add_expr(f'{u} \\/ x')`, `add_expr(f'~ {u}')` and
+    `add_expr(f'{u} /\\ {v}')` are compared point-wise with the tables of u
+    and v.  Returns None or a description of what differs."""
+    import itertools as _it
+    c = H.make_context(backend, translator, False)
+    c.declare(x='bool', y='bool', n=(0, 3))
+    pts = list(_it.product([False, True], [False, True], range(4)))
+
+    def table(u):
+        return [c.let(dict(x=x, y=y, n=n), u) == c.true for x, y, n in pts]
+    xs = table(c.add_expr('x'))
+    srcs = ['FALSE', 'TRUE', 'x', '~ x', 'x /\\ ~ x', 'y \\/ ~ y', 'n = 1',
+            '~ (n = 1)', 'n < 0', 'x /\\ (n = 2)']
+    nodes = []
+    for e in srcs:
+        u = c.add_expr(e)
+        nodes.append((e, u, table(u)))
+    bad = []
+    for e, u, t in nodes:
+        try:
+            r1 = table(c.add_expr(f'{u} \\/ x'))
+            r2 = table(c.add_expr(f'~ {u}'))
+        except Exception as ex:
+            bad.append(f'reference to the node of `{e}` ({u}): raised {ex!r}')
+            continue
+        if r1 != [a or b for a, b in zip(t, xs)]:
+            bad.append(f'`{u} \\/ x` (node of `{e}`) is not the disjunction '
+                       'of that node with x')
+        if r2 != [not a for a in t]:
+            bad.append(f'`~ {u}` (node of `{e}`) is not the negation of '
+                       'that node')
+    for (e, u, t), (e2, v, t2) in zip(nodes, nodes[1:] + nodes[:1]):
+        try:
+            r = table(c.add_expr(f'{u} /\\ {v}'))
+        except Exception as ex:
+            bad.append(f'`{u} /\\ {v}`: raised {ex!r}')
+            continue
+        if r != [a and b for a, b in zip(t, t2)]:
+            bad.append(f'`{u} /\\ {v}` (nodes of `{e}`, `{e2}`) is not their '
+                       'conjunction')
+    return bad or None
+
+
 # ================================================================ correspond
 def correspond(ctx):
     rng = ctx.rng
@@ -996,6 +1044,19 @@ def correspond(ctx):
                     'operator definitions made after copying an Automaton '
                     'interfere between the copies: ' + '; '.join(r[:3]),
                     dict(kind='copy_definitions', config=[be, tr]),
+                    impl=r, property_fails=True))
+    # (D') BDDs entered by reference in later formulas
+    for be in ('autoref', 'cudd'):
+        for tr in ('recursive', 'iterative'):
+            try:
+                r = node_reference_probe(be, tr)
+            except Exception as e:
+                r = [f'raised {e!r}']
+            if r:
+                mism.append(Mismatch(
+                    'a BDD referred to by its node (`@ n`) in a later '
+                    'formula does not mean that BDD: ' + '; '.join(r[:3]),
+                    dict(kind='node_reference', config=[be, tr]),
                     impl=r, property_fails=True))
     # (B) context histories
     n_seq = 200 if thorough else 40
@@ -1348,6 +1409,13 @@ def replay(path):
         return 0
     if case.get('kind') == 'copy_definitions':
         r = copy_definitions_probe(*case['config'])
+        if r:
+            print('still fails:', '; '.join(r))
+            return 1
+        print('passes')
+        return 0
+    if case.get('kind') == 'node_reference':
+        r = node_reference_probe(*case['config'])
         if r:
             print('still fails:', '; '.join(r))
             return 1
